@@ -73,12 +73,14 @@ Definition align_address (address alignment : Z) : Z := (address + alignment - 1
 Record jstate := mk_jstate { j_dest : ival; j_addr : Z; j_last : option iblk; j_next_id : nat }.
 
 (* insert_padding(size): nops behind code, zeros behind data; a block covers whatever the last block does not *)
-Definition insert_padding (nop_len : Z) (st : jstate) (size : Z) : result jstate :=
+(* nop: the bytes of one nop instruction (never empty: divmod by len(nop)) *)
+Definition insert_padding (nop : list Z) (st : jstate) (size : Z) : result jstate :=
   if size =? 0 then Ok st
   else
     let d := j_dest st in
     let code := match j_last st with Some b => ib_code b | None => false end in
-    do pad <- (if code then (if (size mod nop_len =? 0) then Ok (repeat 144 (Z.to_nat size)) else Err ValueErr (* PaddingError *))
+    let nop_len := Z.of_nat (List.length nop) in
+    do pad <- (if code then (if (size mod nop_len =? 0) then Ok (concat (repeat nop (Z.to_nat (size / nop_len)))) else Err ValueErr (* PaddingError *))
                else Ok (repeat 0 (Z.to_nat size)));
     let contents' := iv_contents d ++ pad in
     let '(poff, psize) := match j_last st with
@@ -105,15 +107,15 @@ Definition first_aligned (align : list (nat * Z)) (bs : list iblk) : option iblk
                           | Some _ => match acc with Some a => if ib_off b <? ib_off a then Some b else acc | None => Some b end
                           end) bs None.
 
-Definition append_interval (nop_len : Z) (align : list (nat * Z)) (st : jstate) (iv : ival) : result jstate :=
+Definition append_interval (nop : list Z) (align : list (nat * Z)) (st : jstate) (iv : ival) : result jstate :=
   (* fill in uninitialized bytes of the destination *)
-  do st <- insert_padding nop_len st (iv_size (j_dest st) - Z.of_nat (List.length (iv_contents (j_dest st))));
+  do st <- insert_padding nop st (iv_size (j_dest st) - Z.of_nat (List.length (iv_contents (j_dest st))));
   let '(offset, boundary) := match first_aligned align (iv_blocks iv) with
                              | Some b => (ib_off b, match aget (ib_id b) align with Some a => a | None => 1 end)
                              | None => (0, 1)
                              end in
   let size := align_address (j_addr st + offset) boundary - (j_addr st + offset) in
-  do st <- insert_padding nop_len st size;
+  do st <- insert_padding nop st size;
   let d := j_dest st in
   let d := mk_ival (iv_addr d) (iv_size d + size) (iv_contents d) (iv_blocks d) (iv_symex d) (iv_tabs d) in
   let delta := Z.of_nat (List.length (iv_contents d)) in
@@ -125,12 +127,21 @@ Definition append_interval (nop_len : Z) (align : list (nat * Z)) (st : jstate) 
                     (map (fun tt => dupdate (fst tt) (drekey (fun k => k + delta) (snd tt))) (combine (iv_tabs d) (iv_tabs iv))) in
   Ok (mk_jstate d' (j_addr st + size + iv_size iv) last' (j_next_id st)).
 
-Definition join_byte_intervals (nop_len : Z) (align : list (nat * Z)) (next_id : nat) (ivs : list ival) : result ival :=
+Definition join_byte_intervals (nop : list Z) (align : list (nat * Z)) (next_id : nat) (ivs : list ival) : result ival :=
   match ivs with
   | [] => Err IndexErr
   | [d] => Ok d
   | d :: rest =>
       let st0 := mk_jstate d (iv_addr d + iv_size d) (last_block (iv_blocks d) None) next_id in
-      do st <- fold_left (fun acc iv => do st <- acc; append_interval nop_len align st iv) rest (Ok st0);
+      do st <- fold_left (fun acc iv => do st <- acc; append_interval nop align st iv) rest (Ok st0);
       Ok (j_dest st)
+  end.
+
+(* ABI.nop() of abi.py, by ISA (harness numbering: 0 x64, 1 ia32, 2 arm64, 3 mips32): what join_byte_intervals pads with behind code
+   when it is given no nop encoding *)
+Definition abi_nop (isa : nat) : list Z :=
+  match isa with
+  | 0%nat | 1%nat => [144]
+  | 2%nat => [31; 32; 3; 213]
+  | _ => [0; 0; 0; 0]
   end.
